@@ -16,8 +16,10 @@ ASSUMPTIONS = [
     'only the documented fragment of the command-line syntax is generated: --name=value, --name value for string '
     'options, flags, `--`, positional words; @file, short options, --pika:config/app-config/options-file, '
     'allow_unknown=1 and explicit --pika:bind thread lists are outside the model (outcome `unsupported`)',
-    'values containing `$` (nested placeholders, $[key] references) are not generated; ini.cpp expansion is '
-    'modelled for ${NAME}, ${NAME:default} including nesting and escaped delimiters',
+    'option / ini / environment VALUES containing `$` (nested placeholders, $[key] references) are not generated; ini.cpp '
+    'expansion is modelled for ${NAME}, ${NAME:default} including nesting and escaped delimiters, and for $[key], '
+    '$[key:default] in the one entry that carries user text (pika.reconstructed_cmd_line: application arguments with `$` '
+    'words ARE generated and replayed); substituted text is not scanned again by the model',
     'per-worker affinity masks are not predicted by the model (C15); they are checked for invariance under '
     'option permutation and for bind=none',
 ]
@@ -45,6 +47,15 @@ SETTINGS = {
     'qmax': (None, 'PIKA_THREAD_QUEUE_MAX_THREAD_COUNT', 'pika.thread_queue.max_thread_count', '1000'),
 }
 HANDLED = {'threads', 'cores', 'scheduler', 'bind', 'numa', 'mask'}   # go through handle_* (manage_config)
+
+
+DOLLAR_WORDS = ['${C16_VAR}', 'a${C16_UNSET:dflt}b', 'p${C16_VAR}q', '$[pika.os_threads]', 'n=$[pika.scheduler]',
+                '$[pika.nosuch.key:zz]', 'a$b', '$', 'x$', '${C16_VAR', '$[pika.os_threads']
+
+
+def dollar_word(a):
+    """an argument containing a complete ${..} or $[..] word"""
+    return re.search(r'\$\{[^}]*\}|\$\[[^\]]*\]', a) is not None
 
 
 def hx(s):
@@ -204,6 +215,11 @@ def make_case(rng, mach, idx):
     if rng.random() < 0.05:
         apps.insert(rng.randint(0, len(apps)), rng.choice(nasty))
         nasty_used = True
+    elif rng.random() < 0.06:
+        # words the ini layer expands when init_helper reads the rebuilt command line back (C16:app_args:dollar_expanded)
+        # and words with a dollar sign that it leaves alone
+        apps.insert(rng.randint(0, len(apps)), rng.choice(DOLLAR_WORDS))
+        env['C16_VAR'] = rng.choice(['v1', 'two words'])
     items = cmd + apps
     rng.shuffle(items)
     # keep the relative order of the application words (they must arrive in that order)
@@ -437,7 +453,12 @@ def monitor(case, o, mach):
     got_args = [unhx(a) for a in L['ARGV'].get('argv', '').split(',')[1:]]
     if got_args != exp_args:
         bad = [a for a in exp_args if a == '' or any(c in a for c in '"\'\\')]
-        if bad:
+        dol = [a for a in exp_args if dollar_word(a)]
+        if dol and not bad:
+            hits.append(('C16:app_args:dollar_expanded',
+                         'application arguments %r arrive as %r (argument %r is expanded by the ini layer when the rebuilt '
+                         'command line is read back from pika.reconstructed_cmd_line)' % (exp_args, got_args, dol[0])))
+        elif bad:
             hits.append(('C16:app_args:quote_backslash_or_empty',
                          'application arguments %r arrive as %r (argument %r is re-quoted and split again)' % (exp_args, got_args, bad[0])))
         else:
@@ -476,7 +497,7 @@ def run(ctx):
             cases = [c]
     if not cases:
         n = 260 if ctx.tier == 'quick' else 4000
-        # fixed witnesses first (replayed on every run): F11, ini variant, quoting, E2
+        # fixed witnesses first (replayed on every run): F11, ini variant, quoting, dollar words, E2
         fixed = [
             {'env': {'PIKA_COMMANDLINE_OPTIONS': '--pika:threads=2'}, 'args': ['--pika:threads=3'],
              'src': {'threads': {'pcoopt': '2', 'cmdopt': '3'}}},
@@ -489,6 +510,13 @@ def run(ctx):
             {'env': {}, 'args': ['a\\b', 'x'], 'src': {}},
             {'env': {}, 'args': ["a'b", 'x'], 'src': {}},
             {'env': {}, 'args': ['', 'x'], 'src': {}},
+            # C16:app_args:dollar_expanded (C16_app_args_dollar_refuted): environment variable / configuration entry
+            # substituted into an application argument
+            {'env': {'HOME': '/c16home'}, 'args': ['${HOME}', 'x'], 'src': {}},
+            {'env': {}, 'args': ['$[pika.os_threads]', '--pika:threads=3'], 'src': {'threads': {'cmdopt': '3'}}},
+            {'env': {'HOME': '/a b'}, 'args': ['${HOME}', 'x'], 'src': {}},
+            {'env': {}, 'args': ['a${C16_UNSET:dflt}b', '$[pika.nosuch]'], 'src': {}},
+            {'env': {}, 'args': ['a$b', '$', 'x$'], 'src': {}},
             {'env': {}, 'args': ['--pika:bogus=1'], 'src': {}, 'unknown': '--pika:bogus=1'},
             {'env': {'PIKA_NUMA_SENSITIVE': '2'}, 'args': ['x', '--pika:numa-sensitive'], 'src': {'numa': {'env': '2', 'cmdopt': '0'}}},
             {'env': {}, 'args': ['--pika:threads=0'], 'src': {'threads': {'cmdopt': '0'}}, 'invalid': ('threads', 'cmdopt', '0')},
